@@ -741,7 +741,7 @@ def tail_steps(rng, gen, c2m):
 
 
 def gen_history(rng, mirs, cs, kind=None):
-    kind = kind or rng.choice(["mir", "mir", "c", "c", "c", "api", "api", "cmisc", "cerr", "lrefmod", "tiered", "jcallmod", "movectx", "reload", "c2mopts", "switchmod", "cdecl"])
+    kind = kind or rng.choice(["mir", "mir", "c", "c", "c", "api", "api", "cmisc", "cerr", "lrefmod", "tiered", "jcallmod", "movectx", "reload", "c2mopts", "switchmod", "cdecl", "faillink"])
     iface = rng.choice(IFACES)
     level = rng.below(4)
     link = f"link:{iface}@{level}"
@@ -806,6 +806,18 @@ def gen_history(rng, mirs, cs, kind=None):
             s.append(f"genall:{rng.below(2)}")
         return {"kind": kind, "input": "generated lref module", "iface": iface, "level": level,
                 "files": {"lref.mir": gen_lref_module(rng)}, "steps": s + tail_steps(rng, iface != "interp", False)}
+    if kind == "faillink":
+        txt, bad = gen_faillink_module(rng)
+        iface = rng.choice(["interp", "gen", "lazy"])
+        lv = rng.below(4)
+        s += ["scan:$WORK/faillink.mir", "load", f"linkfail:{iface}@{lv}"]
+        cont = rng.below(3) if bad != "forward" else rng.below(2)
+        if cont == 1:                                   # reload and fail again
+            s += ["load", f"linkfail:{iface}@{lv}"]
+        elif cont == 2:                                 # supply the missing name, link again, run
+            s += ["extern:nosuch", "load", f"link:{iface}@{lv}", "run:f@5"]
+        return {"kind": kind, "input": f"failed link ({bad}), continuation {cont}", "iface": iface, "level": lv,
+                "files": {"faillink.mir": txt}, "steps": s + tail_steps(rng, iface != "interp", False)}
     if kind == "switchmod":
         txt, n, mem = gen_switch_module(rng)
         iface = rng.choice(["gen", "gen", "lazy", "lazybb", "interp"])
@@ -1153,8 +1165,32 @@ def gen_incomplete_c(rng):
     return body
 
 
+def gen_faillink_module(rng):
+    """functions WITH calls (and one with an `inline` insn) come before an undefined import / forward in the
+    module: MIR_link has already flagged them for inlining when it raises the error.  No exports (reloadable)."""
+    bad = rng.choice(["import", "import", "forward", "import2"])
+    L = ["mf:   module", "p:    proto i64, i64:a",
+         "g:    func i64, i64:a", "      add a, a, 1", "      ret a", "      endfunc",
+         "f:    func i64, i64:a", "      local i64:r", "      call p, g, r, a", "      ret r", "      endfunc"]
+    if rng.chance(2, 3):
+        L += ["fi:   func i64, i64:a", "      local i64:r", "      inline p, g, r, a", "      add r, r, 1", "      ret r", "      endfunc"]
+    if rng.chance(1, 2):
+        L += ["tab:  i64 1, 2", "      i64 3"]
+    if bad == "forward":
+        L += ["      forward nosuchfwd"]
+    else:
+        L += ["      import nosuch"]
+        if bad == "import2":
+            L += ["h:    func i64, i64:a", "      local i64:r", "      call p, nosuch, r, a", "      ret r", "      endfunc"]
+    L += ["      endmodule", ""]
+    return "\n".join(L), bad
+
+
 def report_history(r, sig, what, detail):
     h = r["h"]
+    if sig == "C17:free-not-live" and any(x.startswith("linkfail:") for x in h["steps"]) and re.search(r"freeNotLive 1$", detail):
+        sig = "C17:finish-after-failed-link"        # MIR_link's inlining flag (void *) 1 handed to the user's free
+        what = "after a failed MIR_link the inlining flag `(void *) 1` left in func_item->data is passed to the user allocator's free"
     if sig.startswith("C17:leak:") and sum(1 for x in h["steps"] if x == "load") > 1:
         sig = "C17:reload-leak:" + sig[len("C17:leak:"):]        # a leak that needs MIR_load_module of a loaded module
     finding(sig, what, {"stage": "tie", "theorem_or_correspondence": "ledger monitor over an API history",
@@ -1318,6 +1354,8 @@ if EXE is not None and os.path.exists(DRV):
         hs.append(h2)
     for i in range(6 if QUICK else 40):
         hs.append(gen_history(ck.rng, mirs, cs, "cdecl"))
+    for i in range(9 if QUICK else 60):
+        hs.append(gen_history(ck.rng, mirs, cs, "faillink"))
     for i, ni in enumerate([64, 64, 63, 65, 128, 129] if QUICK else [64, 64, 63, 65, 127, 128, 129, 1, 2, 64] * 4):
         h2 = gen_history(ck.rng, mirs, cs, "c2mopts")
         h2["steps"] = [re.sub(r"@I\d+", f"@I{ni}", x, count=1) if x.startswith("c2m:") and "@E" not in x else x for x in h2["steps"]]
